@@ -270,6 +270,8 @@ def run(P, R, L):
     R.clause("ROLE-4", "the counters recovery depends on (next file number, last sequence, current / previous WAL) are recorded in every version "
              "edit from the version set's state and restored from the manifest into the same fields")
     K.role4_counters(P, R, L)
+    K.ord8c_recovered_sequence(P, R, L)
+    R.clause("ORD-8c", "recovery restores the sequence of the last operation of the last replayed batch")
     R.clause("TS-1", "recovery reads the WAL through LogReader::read_record: a crash between two fragments of a record must not make "
              "later records unreadable or invent records (reassembly typestate); a torn tail is end-of-log (GRD-6)")
     K.ts1(P, R, L)
